@@ -10,6 +10,7 @@
 #include "blake2b.hpp"
 #include "argon2.hpp"
 #include "scrypt.hpp"
+#include "constructions.hpp"
 int main() {
     int f = 0;
     f += ref::selftest_sha2();
@@ -23,6 +24,7 @@ int main() {
     f += ref::selftest_blake2b();
     f += ref::selftest_argon2();
     f += ref::selftest_scrypt();
+    f += ref::selftest_constructions();
     printf("reference-model selftest: %d failures\n", f);
     return f ? 1 : 0;
 }
